@@ -174,8 +174,41 @@ def mismatch_case(ctx: Ctx, stream: str, i: int) -> None:
     }
     if jax.config.jax_enable_x64:
         kinds['dtype-double'] = (gen.S(3), gen.S(3, dtype=jnp.float64))
-    names = sorted(kinds)
+    names = sorted(kinds) + ['array-shape-only', 'array-shape-only-lazy-transpose']
     kind = names[i % len(names)]
+    if kind.startswith('array-shape-only'):
+        # the mismatch is ONLY in the shape of an array leaf (the block array of a dense operator): the pytree
+        # definitions of the two containers — classes, static fields, container — are identical; and a WELL-FORMED
+        # container with that very definition is built first, in the same process
+        from furax._base.core import TransposeOperator
+        from furax._base.dense import DenseBlockDiagonalOperator
+        n = rng.choice([2, 3])
+        sin = gen.S(n)
+
+        def dn(rows):
+            d = DenseBlockDiagonalOperator(gen.arr([[rng.randint(-2, 3) for _ in range(n)] for _ in range(rows)]), sin, 'ij...,j...->i...')
+            return d
+        lazy = kind.endswith('lazy-transpose')
+        for cls, name in ((BlockRowOperator, 'BlockRowOperator'), (BlockColumnOperator, 'BlockColumnOperator')):
+            if name == 'BlockRowOperator':
+                good, bad = [dn(n), dn(n)], [dn(n), dn(1)]                   # outputs (n,) (n,)  vs  (n,) (1,)
+            else:
+                mk = (lambda r: TransposeOperator(dn(r))) if lazy else (lambda r: dn(r).T)
+                good, bad = [mk(n), mk(n)], [mk(n), mk(1)]                   # inputs (n,) (n,)  vs  (n,) (1,)
+            form = rng.choice(['list', 'tuple', 'dict'])
+            wrap = (lambda l: l) if form == 'list' else (tuple if form == 'tuple' else (lambda l: {'q': l[0], 'a': l[1]}))
+            st0, _ = safe(cls, wrap(good))
+            st, op = safe(cls, wrap(bad))
+            cfg = {'mismatch': kind, 'container': form, 'class': name}
+            if st0 != 'ok':
+                ctx.fail(stream, i, f'block-ctor-refuses-wellformed:{name}', f'{name} of two matching dense blocks → {st0}', cfg)
+            if st != 'ValueError':
+                ctx.fail(stream, i, f'block-ctor-accepts-mismatch:{name}:{kind}', f'{name} of two blocks whose shared structures differ '
+                         f'only through the SHAPE OF A BLOCK ARRAY (same pytree definition as a well-formed container built just '
+                         f'before) → {st}', cfg)
+        ctx.case(f'mismatch:{kind}:{i % 7}', True, sample={'mismatch': kind})
+        ctx.count('mismatch:' + kind)
+        return
     s1, s2 = kinds[kind]
 
     def endo(s):
@@ -312,7 +345,7 @@ def run(ctx: Ctx) -> None:
     for i in range(160 if q else 3000):
         if ctx.want('block', i):
             one_case(ctx, 'block', i)
-    for i in range(44 if q else 440):
+    for i in range(52 if q else 520):
         if ctx.want('mismatch', i):
             mismatch_case(ctx, 'mismatch', i)
     for i in range(80 if q else 1500):
